@@ -325,3 +325,34 @@ for _f, _setter in _field_setters().items():
 for _s, _sp in SPELLINGS.items():
     V1_CLASSES["v1_spell_message_%s" % _s] = (lambda sp: lambda r: J((lambda q: dict(q, message=sp(q["message"])))(
         reqs.make("sign_v1", r, 1)[0])))(_sp)
+
+
+# ---- nesting depth: the C JSON parser, Python-level walks over the parsed value (copying, validation, logging)
+# ---- and the recursion limit each have their own threshold; every depth band x every position
+NEST_DEPTHS = [50, 200, 330, 400, 499, 500, 600, 800, 990, 1000, 1200, 1400, 1490, 1500, 2500, 20000]
+
+
+def _nested(depth, obj=False):
+    return (b'{"a":' * depth + b"1" + b"}" * depth) if obj else (b"[" * depth + b"]" * depth)
+
+
+def _nest_positions():
+    return {
+        "top": lambda d: _nested(d),
+        "top_obj": lambda d: _nested(d, True),
+        "version_extra": lambda d: b'{"command":"version","x":' + _nested(d) + b"}",
+        "getpubkey_extra": lambda d: b'{"command":"getPubKey","version":5,"keyId":"m/44\'/0\'/0\'/0/0","x":' + _nested(d, d % 2 == 0) + b"}",
+        "state_extra_first": lambda d: b'{"x":' + _nested(d) + b',"command":"blockchainState","version":5}',
+        "command": lambda d: b'{"version":5,"command":' + _nested(d) + b"}",
+        "keyid": lambda d: b'{"command":"getPubKey","version":5,"keyId":' + _nested(d) + b"}",
+        "blocks": lambda d: b'{"command":"advanceBlockchain","version":5,"blocks":' + _nested(d) + b',"brothers":[[]]}',
+        "sign_message": lambda d: b'{"command":"sign","version":5,"keyId":"m/44\'/137\'/0\'/0/0","message":{"hash":' + _nested(d) + b"}}",
+        "unknown_command_extra": lambda d: b'{"command":"nope","version":5,"x":' + _nested(d) + b"}",
+    }
+
+
+for _pn, _pf in _nest_positions().items():
+    for _d in NEST_DEPTHS:
+        CLASSES["nest_%s_%d" % (_pn, _d)] = (lambda f, d: lambda r: f(d))(_pf, _d)
+for _d in NEST_DEPTHS:
+    V1_CLASSES["v1_nest_extra_%d" % _d] = (lambda d: lambda r: b'{"command":"getPubKey","version":1,"keyId":"m/44\'/0\'/0\'/0/0","x":' + _nested(d) + b"}")(_d)
